@@ -173,7 +173,7 @@ func c40CoqCfgPB(c *metadatapb.TopicConfig) string {
 }
 
 // c40Populate applies one op to the real store and returns its Coq form.
-func c40Populate(ctx context.Context, st *metadata.InMemoryStore, op c40Op) string {
+func c40Populate(ctx context.Context, st metadata.Store, op c40Op) string {
 	switch op.K {
 	case "ct":
 		_, _ = st.CreateTopic(ctx, metadata.TopicSpec{Name: op.Topic, NumPartitions: int32(op.N), ReplicationFactor: 1})
@@ -201,7 +201,15 @@ func c40Populate(ctx context.Context, st *metadata.InMemoryStore, op c40Op) stri
 		_ = st.DeleteTopic(ctx, op.Topic)
 		return "ODeleteTopic " + c40Str(op.Topic)
 	case "up": // snapshot refresh; op.N carries the broker count
-		st.Update(c40Snapshot(int(op.N), op.Topics))
+		if u, ok := st.(interface {
+			Update(metadata.ClusterMetadata)
+		}); ok {
+			u.Update(c40Snapshot(int(op.N), op.Topics))
+		} else if pub, ok := st.(interface {
+			publish(metadata.ClusterMetadata)
+		}); ok {
+			pub.publish(c40Snapshot(int(op.N), op.Topics))
+		}
 		return c40CoqUpdate(int(op.N), op.Topics)
 	}
 	panic("populate kind " + op.K)
